@@ -348,10 +348,84 @@ def run(rep, tier):
         if got_flat != want_cmp:
             rep.violation('DetectorErrorModel::flattened', 'wrong-result', text,
                           'flattened() differs from executing the model one instruction at a time', str(want_cmp)[:400], str(got_flat)[:400])
+    dem_target_lists(rep, asan, rng, 600 if quick else 20000)
     asan.close()
     rep.cov['rule'] = ('A: random models (nested repeat to 2^59, shifts, separators, tags with escapes, 60-bit ids, awkward doubles) with '
                        'spelling variations x {string, file}: structure and bit-exact print/parse round trip; B: rejection rules; C: fuzz under '
                        'ASan; D: flattened()/iter_flatten_error_instructions vs the extracted DemFlat model. Non-trivial = >= 3 instructions.')
+
+
+READER_MESSAGES = ['Expected a digit', 'Number too large', 'Unrecognized target prefix', 'must be separated by spacing']
+
+
+def dem_target_lists(rep, asan, rng, count):
+    """tie H for DemTargets.v: the extracted reader / printer of error-instruction target lists against the real ones, on lists
+    written with irregular spacing, comments, either letter case and deliberate malformations"""
+    BAD = ['D', 'L', 'D-1', 'd 1', 'D1152921504606846976', 'L99999999999999999999999', 'X1', '5', '^^', 'D1^', 'D0.5', 'Dx', 'rec[-1]']
+    inp = []
+    meta = []
+    for _ in range(count):
+        toks = []
+        for _ in range(rng.choice([0, 1, 2, 3, 6])):
+            k = rng.random()
+            v = rng.choice([0, 1, 7, 1000, (1 << 31), (1 << 60) - 1])
+            if k < 0.55:
+                toks.append(rng.choice('Dd') + str(v))
+            elif k < 0.8:
+                toks.append(rng.choice('Ll') + str(rng.choice([0, 1, 5, 63, 4000000000])))
+            else:
+                toks.append('^')
+        # separators may not be leading, trailing or doubled in a valid error instruction: keep the list valid for the instruction
+        while toks and toks[0] == '^':
+            toks.pop(0)
+        while toks and toks[-1] == '^':
+            toks.pop()
+        toks = [t for k, t in enumerate(toks) if not (t == '^' and k and toks[k - 1] == '^')]
+        if rng.random() < 0.35 and toks:
+            k = rng.randrange(len(toks))
+            how = rng.choice(['glue', 'bad', 'bad'])
+            if how == 'glue' and k + 1 < len(toks):
+                toks[k:k + 2] = [toks[k] + toks[k + 1]]
+            else:
+                toks[k] = rng.choice(BAD)
+        sep = lambda: rng.choice([' ', ' ', '  ', '\t', ' \t '])
+        body = ''.join(sep() + t for t in toks) + rng.choice(['', ' ', '\t', ' # note D1', '#x', '\r'])
+        text = 'error(0.125)' + body + '\n'
+        inp.append('dtgtread ' + (body + '\n').encode('latin1').hex())
+        meta.append(text)
+    res = core.run_svm('\n'.join(inp) + '\n', timeout=1200)
+    for text, m in zip(meta, res):
+        try:
+            out = asan.request('dparse', ['string'], text.encode('latin1').hex())
+        except core.Crash as e:
+            rep.violation('DetectorErrorModel parser (string)', 'crash', text, 'parser failed: ' + str(e) + e.stderr[-800:])
+            continue
+        impl_err = out[0] if out and out[0].startswith('ERR') else None
+        rep.count(('c08-t', text), nontrivial=m.startswith('OK') and ',' in m)
+        if m.startswith('ERR'):
+            if impl_err is None:
+                rep.violation('read_arbitrary_dem_targets_into', 'accept-invalid', text,
+                              'the target list is rejected by the model of the reader (DemTargets.read_dtargets) but the parser accepted it', 'ERR', out[0][:100])
+            continue
+        if not m.startswith('OK'):
+            rep.broken_obligation('DemTargets-model-run', {'text': text, 'model': m})
+            continue
+        want, rest, written = [x.strip() for x in m[3:].split('|')]
+        if impl_err is not None:
+            if any(x in impl_err for x in READER_MESSAGES):
+                rep.violation('read_arbitrary_dem_targets_into', 'reject-valid', text,
+                              'the model of the reader accepts this target list but the parser rejected it while reading targets: ' + impl_err[:200])
+            continue
+        got = parse_dump(out[1:])
+        tl = [t for ins in got for t in ins[3]] if got else []
+        wl = [enc_target(x) for x in want.split(',') if x]
+        if tl != wl:
+            rep.violation('read_arbitrary_dem_targets_into', 'wrong-result', text, 'parsed targets differ from the model of the reader', wl, tl)
+            continue
+        printed = bytes.fromhex(out[0][3:]).decode('latin1').rstrip('\n')
+        if got and len(got) == 1 and printed != 'error(0.125)' + bytes.fromhex(written).decode('latin1'):
+            rep.violation('operator<<(DemInstruction)', 'wrong-result', text, 'printed target list differs from the model of the printer',
+                          'error(0.125)' + bytes.fromhex(written).decode('latin1'), printed)
 
 
 def replay(path):
